@@ -142,6 +142,10 @@ func (w *opsWorld) apply(op string) (r opResult) {
 		capa, _ := strconv.ParseUint(parts[3], 10, 64)
 		ea := authFor(uint32(id), key(parts[2]), capa)
 		ea.Signature = glow.Sign(refAuthSigningBytes(ea), w.signerPriv(parts[4]))
+		if len(parts) > 5 && parts[5] == "debt" {
+			ea.Debt++ // differs from the plain variant in this single field only
+			ea.Signature = glow.Sign(refAuthSigningBytes(ea), w.signerPriv(parts[4]))
+		}
 		if len(parts) > 5 && parts[5] == "flip" {
 			ea.Signature[17] ^= 0x04
 		}
